@@ -59,7 +59,9 @@ try:
             failed = subprocess.run(f"grep -E '^FAILED' {log} | head -5", shell=True, capture_output=True, text=True).stdout.strip()
             res["suite_rc"], res["suite_summary"], res["suite_failed"] = rc, tail, failed
         # the check
-        env = {"PYNENC_REPO": mut, "PYTHONPATH": f"{VERIF}:{mut}", "PYNENC_VERIF": "1", "PYTHONDONTWRITEBYTECODE": "1",
+        lean_copy = os.path.join(mut, ".verif-lean")
+        sh(f"cp -a {VERIF}/lean {lean_copy}")
+        env = {"PYNENC_REPO": mut, "PYTHONPATH": f"{VERIF}:{mut}", "PYNENC_VERIF": "1", "PYTHONDONTWRITEBYTECODE": "1", "VERIF_LEAN_DIR": lean_copy,
                "VERIF_EVIDENCE_DIR": os.path.join(mut, ".verif-evidence"), "VERIF_REPLAY_DIR": os.path.join(src, "replays")}
         t0 = time.time()
         rc, out = sh(["/venv/bin/python", "-m", "harness.run", check_prop, "--tier", tier], cwd=VERIF, env=env, timeout=3000)
@@ -68,7 +70,6 @@ try:
         res["check_violation_lines"] = [l[:300] for l in lines[:8]]
         res["detected"] = rc == 1 and any(l.startswith("VIOLATION") for l in out.splitlines())
         res["concrete_input"] = res["detected"] and not all("no-failing-input-found" in l for l in out.splitlines() if l.startswith("VIOLATION"))
-        sh("/venv/bin/python -m harness.regen", cwd=VERIF, env={"PYTHONPATH": f"{VERIF}:/repo"})
 finally:
     shutil.rmtree(clean, ignore_errors=True)
     shutil.rmtree(mut, ignore_errors=True)
